@@ -329,3 +329,5 @@ def run(pm, ctx, rule, patterns):
     # the order of updates and reads (rule <ID>-RO) covers the same functions
     from . import orderdrift
     orderdrift.run(pm, ctx, rule.replace('-MU', '-RO'), patterns)
+    from . import usedef
+    usedef.run(pm, ctx, rule.replace('-MU', '-RU'), patterns)
